@@ -50,7 +50,7 @@ def run(ck):
             keys = []
             for (bi, t) in sites:
                 o = f.origins(t["args"][6], deep=True)
-                c = f.origins(t["args"][3], deep=True)
+                c = f.origins(t["args"][3], deep=True, outflow=True)
                 p = f.origins(t["args"][4], deep=True)
                 keys.append((o, c, p))
             ck.ob("DEFUSE", f.path, "first-proof:receiver-key", ("arg", 5) in keys[0][0] and ("arg", 4) not in keys[0][0], "transfer-amount proof uses the receiver's key (arg 5)", f.loc(sites[0][0]))
@@ -73,7 +73,7 @@ def run(ck):
         for (bi, t) in sites:
             o = f.origins(t["args"][6], deep=True)
             ck.ob("DEFUSE", f.path, "proof:own-key", ("arg", 4) in o, "remaining-amount proof uses the account's key", f.loc(bi))
-            c = f.origins(t["args"][3], deep=True)
+            c = f.origins(t["args"][3], deep=True, outflow=True)
             ck.ob("DEFUSE", f.path, "proof:remaining-amount", ("field", "remaining_amount") in c, "commitments of the remaining amount", f.loc(bi))
             ob = f.origins(t["args"][2], deep=True)
             ck.ob("CONST", f.path, "bits=64/num_chunks", any(a[0] == "const" and a[1].endswith("CHUNK_SIZE") for a in ob), "bit width derives from CHUNK_SIZE", f.loc(bi))
